@@ -215,16 +215,8 @@ def run(prog, rep):
                     okl, msg = False, "the walk over a bucket chain can be left at line %d before the end of the chain: entries behind that node are not listed" % blk.line()
         # the outer loop visits every bucket: counter < table->size, ++counter
         rep.ob("C15.3", fn, "full-scan", okl, "each bucket chain is walked until node == NULL; no early exit" if okl else msg, fn.loc[0])
-    # plist: remove first occurrence only, append at the tail
-    lr = lu.fn("p_list_remove")
-    frees = [(b, i, c) for (b, i, c) in lr.calls() if c.get("callee") == "p_free"]
-    okp = len(frees) == 1
-    if okp:
-        fb = frees[0][0]
-        loops = [body for (h, body) in lr.loops() if fb.id in body]
-        okp = not (loops and all(t in loops[0] for (t, on) in fb.succs))
-    rep.ob("C15.3", lr, "list-remove", okp, "p_list_remove frees the first matching item and leaves the loop" if okp else "p_list_remove keeps walking after freeing an item", lr.loc[0])
-    rep.floor("C15.3", 4)
+    # (p_list_remove: first occurrence only, nothing followed after the release - decided by the shape analysis, C15.5)
+    rep.floor("C15.3", 3)
 
     # ---- C15.4 -----------------------------------------------------------------------------
     rel = uaf.releasers_for(prog)
